@@ -269,16 +269,24 @@ def k_derived(run, case):
         if arr["t"][k] <= arr["t"][k - 1]:
             arr["t"][k] = arr["t"][k - 1] + 1e-3
     mode = "se3" if rng.random() < .6 else "xyzq"
-    src = gen.make_evo(arr, mode, True, flavour=gen.rand_flavour(rng))
+    shared_meta = {"frame_id": "odom"}  # one dictionary of the caller handed to every constructor
+    src = gen.make_evo(arr, mode, True, flavour=gen.rand_flavour(rng), meta=shared_meta)
     aged = gen.age(rng, src, p=.8)
     planes = list(rng.permutation(list(PLANES)))[:int(rng.integers(2, 4))]
     hows = []
+    siblings = bool(rng.random() < .25)
     for plane in planes:
         how = ["deepcopy", "associate_first", "associate_second", "split"][rng.integers(4)]
+        if siblings:
+            how = "sibling"
         hows.append(how + ">" + plane)
         ids = list(range(n))
         if how == "deepcopy":
             d = copy.deepcopy(src)
+        elif how == "sibling":
+            # built from the same numbers with the same metadata dictionary (reference and estimates
+            # of one experiment)
+            d = gen.make_evo(arr, "se3" if rng.random() < .5 else "xyzq", True, meta=shared_meta)
         elif how == "split":
             d = src.split_time_gaps(1e12)[0]
         else:
